@@ -481,7 +481,11 @@ impl TCheck for C13 {
                 if predecessor {
                     match jubako::FileSource::open(&sibling_path).map(jubako::Reader::from).map_err(|e| e.to_string()).and_then(|r| jubako::reader::ContentPack::new(r).map_err(|e| simcore::dump::err_class(&e))) {
                         Ok(sib) => {
-                            for cm in model.contents.iter() {
+                            // (every content in order, and last the one the first reader begins
+                            // with: the last thing asked of the old source is the first thing asked
+                            // of the new one)
+                            let first = &model.contents[programs[0][0].0];
+                            for cm in model.contents.iter().chain(std::iter::once(first)) {
                                 if cm.bytes.len() < 8 {
                                     continue;
                                 }
@@ -593,7 +597,7 @@ impl TCheck for C13 {
                                     }
                                 }
                             };
-                            if replaced {
+                            if replaced || predecessor {
                                 // the whole content in one slice, whatever the seeded walk picks
                                 match region.get_slice(jubako::Offset::zero(), cm.bytes.len()) {
                                     Ok(s) if s[..] == cm.bytes[..] => {}
